@@ -31,47 +31,57 @@ Definition abity_eqb (a b : list abitype) : bool :=
 
 Definition FUEL : nat := 40.
 
-(* the ABI the driver builds with abi.NewABI(roots, roots): every root is action and output with its id *)
-Definition abi_of (roots : list (N * ty)) : abi :=
-  let ids := map (fun '(i, t) => (i, tyname t)) roots in
-  ABI ids ids (new_abi (map snd roots)).
+(* compact printing of byte sequences by the driver *)
+Definition vb (b : bytes) : value := VList (map (fun x => VNum (Z.of_N x)) b).
+
+(* the ABI the driver builds with abi.NewABI(actions, outputs) *)
+Definition abi_of (acts outs : list (N * ty)) : abi :=
+  let ids l := map (fun '(i, t) => (i, tyname t)) l in
+  ABI (ids acts) (ids outs) (new_abi (map snd acts ++ map snd outs)).
+
+(* registered actions / outputs (type id, type), whether the type under test is taken from the outputs, its index *)
+Record ctx := Ctx { x_acts : list (N * ty); x_outs : list (N * ty); x_out : bool; x_k : nat }.
+
+Definition root (x : ctx) : N * ty := nth (x_k x) (if x_out x then x_outs x else x_acts x) (0, TPrim U8).
+Definition x_abi (x : ctx) : abi := abi_of (x_acts x) (x_outs x).
+(* dynamic.UnmarshalOutput for output types, dynamic.UnmarshalAction otherwise *)
+Definition x_ids (x : ctx) : list (N * string) := if x_out x then abi_outputs (x_abi x) else abi_actions (x_abi x).
 
 Inductive case :=
 (* abi.NewABI on the root types: observed Types list *)
-| CDescribe (roots : list (N * ty)) (obs : list abitype)
-(* value v of root #k: dynamic.Marshal(abi, name, json v) / native typeID ++ LinearCodec bytes /
-   dynamic.UnmarshalAction(native bytes) read back as a value / its JSON equals the JSON of the natively parsed value *)
-| CMarshal (roots : list (N * ty)) (k : nat) (v : value)
+| CDescribe (acts outs : list (N * ty)) (obs : list abitype)
+(* value v of the type under test: dynamic.Marshal(abi, name, json v) (actions only) / native typeID ++ LinearCodec
+   bytes / dynamic.UnmarshalAction|Output(native bytes) read back as a value / its JSON equals the JSON of the
+   natively parsed value *)
+| CMarshal (x : ctx) (v : value)
            (dyn : option bytes) (native : option bytes) (unm : option value) (jsoneq : bool)
-(* arbitrary bytes: native LinearCodec decode of data[1:] (value, bytes consumed) / dynamic.UnmarshalAction read back *)
-| CDecode (roots : list (N * ty)) (k : nat) (data : bytes) (native : option (value * N)) (dyn : option value)
+(* arbitrary bytes: native LinearCodec decode of data[1:] (value, bytes consumed) / dynamic.Unmarshal* read back *)
+| CDecode (x : ctx) (data : bytes) (native : option (value * N)) (dyn : option value)
 (* native codec only (types outside what getReflectType supports): Bytes() and the native parser *)
 | CNative (t : ty) (id : N) (v : value) (native : option bytes) (back : option value).
 
-Definition root (roots : list (N * ty)) (k : nat) : N * ty := nth k roots (0, TPrim U8).
-
 Definition check_case (c : case) : bool :=
   match c with
-  | CDescribe roots obs => abity_eqb (new_abi (map snd roots)) obs
-  | CMarshal roots k v dyn native unm _ =>
-      let '(id, t) := root roots k in
-      let a := abi_of roots in
+  | CDescribe acts outs obs => abity_eqb (new_abi (map snd acts ++ map snd outs)) obs
+  | CMarshal x v dyn native unm _ =>
+      let '(id, t) := root x in
+      let a := x_abi x in
       let mnative := option_map (cons id) (enc t v) in
-      opt_eqb bytes_eqb (dyn_marshal FUEL a (tyname t) (canon_val t v)) dyn
+      (x_out x || opt_eqb bytes_eqb (dyn_marshal FUEL a (tyname t) (canon_val t v)) dyn)
       && opt_eqb bytes_eqb mnative native
       && match native with
-         | Some nb => opt_eqb value_eqb (dyn_unmarshal FUEL a (abi_actions a) nb) (option_map (canon_val t) unm)
+         | Some nb => opt_eqb value_eqb (dyn_unmarshal FUEL a (x_ids x) nb) (option_map (canon_val t) unm)
          | None => true
          end
-  | CDecode roots k data native dyn =>
-      let '(id, t) := root roots k in
-      let a := abi_of roots in
+  | CDecode x data native dyn =>
+      let '(id, t) := root x in
+      let a := x_abi x in
       match data with
       | [] => true
       | _ :: body =>
           opt_eqb (fun '(v1, n1) '(v2, n2) => value_eqb v1 v2 && (n1 =? n2))
                   (match dec t body with Some (v, r) => Some (v, len body - len r) | None => None end) native
-          && opt_eqb value_eqb (dyn_unmarshal FUEL a (abi_actions a) data) (option_map (canon_val t) dyn)
+          && opt_eqb value_eqb (dyn_unmarshal FUEL a (x_ids x) data) (option_map (canon_val t) dyn)
       end
   | CNative t id v native back =>
       opt_eqb bytes_eqb (option_map (cons id) (enc t v)) native
@@ -82,18 +92,18 @@ Definition check_case (c : case) : bool :=
   end.
 
 (* The property on the implementation's outputs, without the model: a natively encodable value is encoded to
-   the same bytes through the ABI, the bytes decode through the ABI to the same value, and the JSON documents
-   agree (decided by the driver with encoding/json); a value the codec rejects is rejected through the ABI too.
-   On arbitrary bytes the ABI decoder and the native decoder agree. *)
+   the same bytes through the ABI (dynamic.Marshal exists for actions only), the bytes decode through the ABI to
+   the same value, and the JSON documents agree (decided by the driver with encoding/json); a value the codec
+   rejects is rejected through the ABI too.  On arbitrary bytes the ABI decoder and the native decoder agree. *)
 Definition spec_ok (c : case) : bool :=
   match c with
-  | CDescribe _ _ => true
-  | CMarshal _ _ v dyn native unm jsoneq =>
+  | CDescribe _ _ _ => true
+  | CMarshal x v dyn native unm jsoneq =>
       match native with
-      | Some nb => opt_eqb bytes_eqb dyn (Some nb) && opt_eqb value_eqb unm (Some v) && jsoneq
+      | Some nb => (x_out x || opt_eqb bytes_eqb dyn (Some nb)) && opt_eqb value_eqb unm (Some v) && jsoneq
       | None => match dyn with None => true | Some _ => false end
       end
-  | CDecode _ _ data native dyn =>
+  | CDecode _ data native dyn =>
       match data with
       | [] => true
       | _ => opt_eqb value_eqb dyn (option_map fst native)
